@@ -395,7 +395,8 @@ class InteractionsEncoder:
             else:
                 terms.append([v*t for v,s in zip(values,starts) for t in terms[d][(s-1):]])
 
-            starts = list(accumulate(starts[:1]+starts[-1:]+starts[1:-1]))
+            n_terms = len(terms[d])
+            starts  = list(accumulate([1]+[n_terms-s+1 for s in starts[:-1]]))
 
         return terms
 
